@@ -41,15 +41,21 @@ def gen(wd, nn=3, atoms="full", depth=1):
     return cached(f"ec-gen-{nn}-{atoms}-{depth}", go)
 
 
-def sim(wd, nn, atoms, depth, num, tlc_seed):
-    """Random walks of the machine (tlc -simulate); every visited state is a term."""
+def sim(wd, nn, atoms, depth, num, tlc_seed, cap=40000):
+    """Random walks of the machine (tlc -simulate).  TLC evaluates the Emit invariant on every successor it generates
+    along a walk (about 90 per step), so a walk contributes the terms on it and all their neighbours; `num` walks give
+    roughly num * depth * 90 lines.  Lines are de-duplicated as raw strings and capped before they are parsed."""
     r = tlc("ExprCalc.tla", _cfg(wd, nn, atoms, depth, False, True), workers=1, meta=wd / "ecsim",
             simulate=f"num={num}", depth=depth + 1, tlc_seed=tlc_seed)
     if "Error:" in r["out"]:
         raise MachineryError("ExprCalc simulate failed:\n" + r["out"][-2000:])
+    pre = '<<"CALC", '
+    uniq = sorted({line for line in r["out"].splitlines() if line.startswith(pre)})
+    if len(uniq) > cap:
+        uniq = random.Random(tlc_seed).sample(uniq, cap)
+    r["out"] = "\n".join(uniq)
     ts = tagged_lines(r["out"], "CALC")
-    uniq = {json.dumps(t, sort_keys=True): t for t in ts}
-    return {"terms": [uniq[k] for k in sorted(uniq)], "generated": r["generated"], "distinct": len(uniq)}
+    return {"terms": ts, "generated": r["generated"], "distinct": len(ts)}
 
 
 def calc_group(nn: int, recs: list) -> dict:
